@@ -67,7 +67,9 @@ fn opt_num<T: FromStr + Sync + Send>(
         } else {
             Error::invalid(format!("XML tag '{tag_name}' has no 'type' attribute"))?
         }
+        // White space around a number is not part of the number
         let text = text_of(&tag).unwrap_or_else(|| "0".to_string());
+        let text = text.trim();
         if let Ok(parsed) = text.parse::<T>() {
             Ok(Some(parsed))
         } else {
